@@ -2,7 +2,7 @@
    The theorems quantify over ALL interleavings of the modelled atomic actions on the module-level
    state (per-thread build guard and tracking switch, the global sequence counter, the shared
    caches).  Atomicity of each action under the GIL is the assumption. *)
-From Fiddle Require Import Threads Threads_proofs.
+From Fiddle Require Import Threads Threads_proofs Threads_more.
 From Coq Require Import List Sorted.
 Import ListNotations.
 
@@ -32,6 +32,46 @@ Theorem C19_cache_sound : forall f sched g,
   (forall t v, In (t, OCache (Some v)) (snd (run f g sched)) -> exists k, v = f k).
 Proof. exact cache_sound. Qed.
 Print Assumptions C19_cache_sound.
+
+(* any two interleavings of the same per-thread programs look the same to every thread *)
+Theorem C19_interleaving_irrelevant : forall f t s1 s2 g,
+  only t s1 = only t s2 ->
+  map erase (proj t (snd (run f g s1))) = map erase (proj t (snd (run f g s2))).
+Proof. exact interleaving_irrelevant. Qed.
+Print Assumptions C19_interleaving_irrelevant.
+
+Theorem C19_independent_actions_commute : forall f t pre t1 a1 t2 a2 post g,
+  t1 <> t2 ->
+  map erase (proj t (snd (run f g (pre ++ (t1, a1) :: (t2, a2) :: post)))) =
+  map erase (proj t (snd (run f g (pre ++ (t2, a2) :: (t1, a1) :: post)))).
+Proof. exact independent_swap. Qed.
+Print Assumptions C19_independent_actions_commute.
+
+(* the per-thread flags (build guard, tracking switch) at the end are those of the solo run *)
+Theorem C19_final_flags_as_alone : forall f t sched g g',
+  agree t g g' -> agree t (fst (run f g sched)) (fst (run f g' (only t sched))).
+Proof. exact final_flags_agree. Qed.
+Print Assumptions C19_final_flags_as_alone.
+
+Theorem C19_guard_answer_as_alone : forall f t sched g g',
+  agree t g g' ->
+  snd (step f (fst (run f g sched)) t AEnterBuild) =
+  snd (step f (fst (run f g' (only t sched))) t AEnterBuild).
+Proof. exact enter_after_interleaving. Qed.
+Print Assumptions C19_guard_answer_as_alone.
+
+Theorem C19_seq_count_as_alone : forall f t sched g g',
+  agree t g g' ->
+  length (seqs_of (proj t (snd (run f g sched)))) =
+  length (seqs_of (proj t (snd (run f g' (only t sched))))).
+Proof. exact seq_count_same. Qed.
+Print Assumptions C19_seq_count_as_alone.
+
+(* get-or-compute on a shared cache always yields the pure function of the key *)
+Theorem C19_cache_value_exact : forall f pre t k g,
+  cache_ok f g -> used f k (snd (step f (fst (run f g pre)) t (ACacheGet k))) = f k.
+Proof. exact cache_value_exact. Qed.
+Print Assumptions C19_cache_value_exact.
 
 (* non-vacuity: two threads, one building, one editing under suspend_tracking, interleaved *)
 Example C19_nonvacuous :
